@@ -127,6 +127,7 @@ var tierScale = map[string]float64{}
 func workerMain(prop, tier string, worker int, baseSeed uint64, out string) int {
 	prof := profileFor(prop)
 	tc := tierFor(prop, tier)
+	curTier = tier
 	rep := &WorkerReport{Worker: worker, Counts: map[string]int{}, Faults: map[string]int{}, Probes: map[string]int{}, Foreign: map[string]int{}}
 	t0 := time.Now()
 	states, grams := map[string]bool{}, map[string]bool{}
